@@ -2,8 +2,8 @@
 //@@ include contracts/inc_value_units.rs
 //@@ include prelude/zset_stream_stubs.rs
 verus! {
-spec fn holds_non_zset(s: DatabaseShard, key: Vec<u8>) -> bool { s.data@.contains_key(key) && !(s.data@[key].value is SortedSet) }
-spec fn holds_non_stream(s: DatabaseShard, key: Vec<u8>) -> bool { s.data@.contains_key(key) && !(s.data@[key].value is Stream) }
+spec fn holds_non_zset(s: SV, key: Vec<u8>) -> bool { s.data.contains_key(key) && !(s.data[key].value is SortedSet) }
+spec fn holds_non_stream(s: SV, key: Vec<u8>) -> bool { s.data.contains_key(key) && !(s.data[key].value is Stream) }
 
 impl StorageEngine {
 //@@ unit zadd fn src/storage/engine.rs StorageEngine::zadd
@@ -11,12 +11,12 @@ impl StorageEngine {
 //@@   rewrite R2
     fn zadd(&self, shard_guard: &mut DatabaseShard, key: Key, member: Vec<u8>, score: f64) -> (r: Result<bool>)
         ensures
-            step_ok_shared(*old(shard_guard), *final(shard_guard), key),
+            !f64_is_nan(score) ==> step_ok_shared(eff(*old(shard_guard), key), sv(*final(shard_guard)), key),
             // a score that is not a number is refused before anything is touched (the skip list's insert REQUIRES a number)
-            f64_is_nan(score) ==> r is Err && unchanged(*old(shard_guard), *final(shard_guard)),
-            holds_non_zset(*old(shard_guard), key) ==> r is Err && unchanged(*old(shard_guard), *final(shard_guard)),
+            f64_is_nan(score) ==> r is Err && unchanged(sv(*old(shard_guard)), sv(*final(shard_guard))),
+            holds_non_zset(eff(*old(shard_guard), key), key) ==> r is Err && unchanged(eff(*old(shard_guard), key), sv(*final(shard_guard))),
             // accepted: the key exists afterwards and is marked for WATCH (the member set lives behind a shared reference)
-            r is Ok ==> final(shard_guard).data@.contains_key(key) && final(shard_guard).data@[key].value is SortedSet && marks(*final(shard_guard)).contains(key@),
+            r is Ok ==> sv(*final(shard_guard)).data.contains_key(key) && sv(*final(shard_guard)).data[key].value is SortedSet && marks(sv(*final(shard_guard))).contains(key@),
 //@@ body
 //@@ end
 
@@ -26,10 +26,10 @@ impl StorageEngine {
 //@@   rewrite R7 "curr_score + increment" verif_f64_add
     fn zincrby(&self, shard_guard: &mut DatabaseShard, key: Key, member: Vec<u8>, increment: f64) -> (r: Result<f64>)
         ensures
-            step_ok_shared(*old(shard_guard), *final(shard_guard), key),
-            f64_is_nan(increment) ==> r is Err && unchanged(*old(shard_guard), *final(shard_guard)),
-            holds_non_zset(*old(shard_guard), key) ==> r is Err && unchanged(*old(shard_guard), *final(shard_guard)),
-            r matches Ok(s) ==> !f64_is_nan(s) && final(shard_guard).data@.contains_key(key) && marks(*final(shard_guard)).contains(key@),
+            !f64_is_nan(increment) ==> step_ok_shared(eff(*old(shard_guard), key), sv(*final(shard_guard)), key),
+            f64_is_nan(increment) ==> r is Err && unchanged(sv(*old(shard_guard)), sv(*final(shard_guard))),
+            holds_non_zset(eff(*old(shard_guard), key), key) ==> r is Err && unchanged(eff(*old(shard_guard), key), sv(*final(shard_guard))),
+            r matches Ok(s) ==> !f64_is_nan(s) && sv(*final(shard_guard)).data.contains_key(key) && marks(sv(*final(shard_guard))).contains(key@),
 //@@ body
 //@@ end
 
@@ -38,12 +38,12 @@ impl StorageEngine {
 //@@   rewrite R2
     fn zrem(&self, shard_guard: &mut DatabaseShard, key: &[u8], member: &[u8]) -> (r: Result<bool>)
         ensures
-            step_ok_shared(*old(shard_guard), *final(shard_guard), key_of(key@)),
-            holds_non_zset(*old(shard_guard), key_of(key@)) ==> r is Err && unchanged(*old(shard_guard), *final(shard_guard)),
-            !old(shard_guard).data@.contains_key(key_of(key@)) ==> r == Ok::<bool, FerrousError>(false) && unchanged(*old(shard_guard), *final(shard_guard)),
+            step_ok_shared(eff(*old(shard_guard), key_of(key@)), sv(*final(shard_guard)), key_of(key@)),
+            holds_non_zset(eff(*old(shard_guard), key_of(key@)), key_of(key@)) ==> r is Err && unchanged(eff(*old(shard_guard), key_of(key@)), sv(*final(shard_guard))),
+            !eff(*old(shard_guard), key_of(key@)).data.contains_key(key_of(key@)) ==> r == Ok::<bool, FerrousError>(false) && unchanged(eff(*old(shard_guard), key_of(key@)), sv(*final(shard_guard))),
             // a removal is marked; nothing removed: nothing changes
-            r == Ok::<bool, FerrousError>(true) ==> marks(*final(shard_guard)).contains(key@),
-            r == Ok::<bool, FerrousError>(false) ==> unchanged(*old(shard_guard), *final(shard_guard)),
+            r == Ok::<bool, FerrousError>(true) ==> marks(sv(*final(shard_guard))).contains(key@),
+            r == Ok::<bool, FerrousError>(false) ==> unchanged(eff(*old(shard_guard), key_of(key@)), sv(*final(shard_guard))),
 //@@ body
 //@@ end
 
@@ -54,12 +54,12 @@ impl StorageEngine {
 //@@   rewrite R2
     fn xdel(&self, shard_guard: &mut DatabaseShard, key: &[u8], ids: Vec<StreamId>) -> (r: Result<usize>)
         ensures
-            step_ok_shared(*old(shard_guard), *final(shard_guard), key_of(key@)),
-            holds_non_stream(*old(shard_guard), key_of(key@)) ==> r is Err && unchanged(*old(shard_guard), *final(shard_guard)),
-            !old(shard_guard).data@.contains_key(key_of(key@)) ==> r == Ok::<usize, FerrousError>(0) && unchanged(*old(shard_guard), *final(shard_guard)),
+            step_ok_shared(eff(*old(shard_guard), key_of(key@)), sv(*final(shard_guard)), key_of(key@)),
+            holds_non_stream(eff(*old(shard_guard), key_of(key@)), key_of(key@)) ==> r is Err && unchanged(eff(*old(shard_guard), key_of(key@)), sv(*final(shard_guard))),
+            !eff(*old(shard_guard), key_of(key@)).data.contains_key(key_of(key@)) ==> r == Ok::<usize, FerrousError>(0) && unchanged(eff(*old(shard_guard), key_of(key@)), sv(*final(shard_guard))),
             // the stream object stays in place whatever was deleted
-            old(shard_guard).data@.contains_key(key_of(key@)) ==> final(shard_guard).data@ == old(shard_guard).data@ && final(shard_guard).expiring_keys@ == old(shard_guard).expiring_keys@,
-            r matches Ok(n) ==> n > 0 ==> marks(*final(shard_guard)).contains(key@),
+            eff(*old(shard_guard), key_of(key@)).data.contains_key(key_of(key@)) ==> sv(*final(shard_guard)).data == eff(*old(shard_guard), key_of(key@)).data && sv(*final(shard_guard)).exp == eff(*old(shard_guard), key_of(key@)).exp,
+            r matches Ok(n) ==> n > 0 ==> marks(sv(*final(shard_guard))).contains(key@),
 //@@ body
 //@@ end
 
@@ -68,11 +68,11 @@ impl StorageEngine {
 //@@   rewrite R2
     fn xtrim(&self, shard_guard: &mut DatabaseShard, key: &[u8], max_len: usize) -> (r: Result<usize>)
         ensures
-            step_ok_shared(*old(shard_guard), *final(shard_guard), key_of(key@)),
-            holds_non_stream(*old(shard_guard), key_of(key@)) ==> r is Err && unchanged(*old(shard_guard), *final(shard_guard)),
-            !old(shard_guard).data@.contains_key(key_of(key@)) ==> r == Ok::<usize, FerrousError>(0) && unchanged(*old(shard_guard), *final(shard_guard)),
-            old(shard_guard).data@.contains_key(key_of(key@)) ==> final(shard_guard).data@ == old(shard_guard).data@ && final(shard_guard).expiring_keys@ == old(shard_guard).expiring_keys@,
-            r matches Ok(n) ==> n > 0 ==> marks(*final(shard_guard)).contains(key@),
+            step_ok_shared(eff(*old(shard_guard), key_of(key@)), sv(*final(shard_guard)), key_of(key@)),
+            holds_non_stream(eff(*old(shard_guard), key_of(key@)), key_of(key@)) ==> r is Err && unchanged(eff(*old(shard_guard), key_of(key@)), sv(*final(shard_guard))),
+            !eff(*old(shard_guard), key_of(key@)).data.contains_key(key_of(key@)) ==> r == Ok::<usize, FerrousError>(0) && unchanged(eff(*old(shard_guard), key_of(key@)), sv(*final(shard_guard))),
+            eff(*old(shard_guard), key_of(key@)).data.contains_key(key_of(key@)) ==> sv(*final(shard_guard)).data == eff(*old(shard_guard), key_of(key@)).data && sv(*final(shard_guard)).exp == eff(*old(shard_guard), key_of(key@)).exp,
+            r matches Ok(n) ==> n > 0 ==> marks(sv(*final(shard_guard))).contains(key@),
 //@@ body
 //@@ end
 }
